@@ -423,6 +423,60 @@ func c07LiveLanguages(c *core.Ctx) {
 	}
 	c.Count("live_language_rounds", 3)
 	c.NonTrivial(fpf("livelang|%s|%d", used, c.Case))
+	// the same for the default formatter and its message map (conf.DefaultIssueMessageMap): an entry edited between two calls is
+	// what the next call uses, whether or not an issue with that type and code was formatted before
+	conf.IssueFormatter = saved
+	dm := conf.DefaultIssueMessageMap
+	type key struct {
+		t zconst.ZogType
+		c zconst.ZogIssueCode
+	}
+	edits := []key{{zconst.TypeString, zconst.IssueCodeRequired}, {zconst.TypeString, zconst.IssueCodeEmail}, {zconst.TypeNumber, zconst.IssueCodeFallback}, {zconst.TypeString, zconst.IssueCodeMin}}
+	orig := map[key]string{}
+	for _, k := range edits {
+		orig[k] = dm[k.t][k.c]
+	}
+	defer func() {
+		for k, v := range orig {
+			dm[k.t][k.c] = v
+		}
+	}()
+	one := func(k key) string {
+		var n int
+		var l z.ZogIssueList
+		switch k.c {
+		case zconst.IssueCodeRequired:
+			l = z.String().Required().Parse("", &s)
+		case zconst.IssueCodeEmail:
+			l = z.String().Email().Parse("not an address", &s)
+		case zconst.IssueCodeMin:
+			l = z.String().Min(5).Parse("ab", &s)
+		default:
+			l = z.Int().Parse("not a number", &n)
+		}
+		if len(l) != 1 {
+			return fmt.Sprintf("%d issues", len(l))
+		}
+		return l[0].Message
+	}
+	for _, k := range edits {
+		if c.R.Bool() {
+			one(k) // used before the edit, or not
+		}
+	}
+	for round := 1; round <= 2; round++ {
+		for _, k := range edits {
+			dm[k.t][k.c] = fmt.Sprintf("edit%d: %s", round, orig[k])
+		}
+		for _, k := range edits {
+			got := one(k)
+			c.Eval(1)
+			if !strings.HasPrefix(got, fmt.Sprintf("edit%d: ", round)) {
+				c.Violation("execution-not-isolated|stale-message-configuration", map[string]any{"type": string(k.t), "code": string(k.c), "message_map_entry_now": dm[k.t][k.c], "message_of_the_call": got})
+				return
+			}
+		}
+	}
 }
 
 // c07KeptLists: issue lists of primitive schemas that the caller still holds are not touched by later executions, and handing
